@@ -380,8 +380,10 @@ def encode(sysm, bd, mode):
     elif mode == 'readahead_pulled':
         s.add(z3.Or([S['$pulled'] - S['$delivered'] > B + 2 for S in St]))
     elif mode == 'readahead_tight':
-        # vacuity guard of the step-bounded read-ahead claim: the bound B+2 is actually reached within K steps (must be sat)
-        s.add(z3.Or([S['$pulled'] - S['$delivered'] == B + 2 for S in St]))
+        # vacuity guard of the step-bounded read-ahead claim: the read-ahead level that the implementation can actually reach
+        # (single_thread_prefetch: B+2 = the stated bound; lazy_parallel_map: B+1, it pulls one element beyond a full queue)
+        # is reached within K steps (must be sat), i.e. the prefixes are long enough to fill the buffer
+        s.add(z3.Or([S['$pulled'] - S['$delivered'] == B + (1 if pool else 2) for S in St]))
     elif mode == 'readahead_started':
         if not pool:
             s.add(z3.BoolVal(False))
